@@ -186,6 +186,27 @@ def run(rep, tier, seed, keep=False):
                         hand_snap = hs
                 nh += 1
                 rep.evaluations += 3
+        # evaluations that pass no context at all: what one of them is given as data must not be there for the next one
+        nnc = 0
+        for conv in (True, False):
+            eng0 = yaql.YaqlFactory().create(options={'yaql.convertInputData': conv})
+            s_dollar, s_pair, s_len = eng0('$'), eng0('[$, 1]'), eng0('$.len()')
+            case = {'history': 'evaluate() without context', 'convertInputData': conv}
+
+            def ev(st, **kw):
+                try:
+                    return ('ok', st.evaluate(**kw))
+                except Exception as ex:  # noqa
+                    return ('exc', type(ex).__name__)
+            first = ev(s_dollar)
+            steps = [ev(s_pair, data={'secret': [1, 2, 3]}), ev(s_len, data=[1, 2]), ev(s_dollar), ev(yaql.YaqlFactory().create()('$'))]
+            nnc += 5
+            rep.evaluations += 5
+            same = lambda a, b: a[0] == b[0] and (a[1] == b[1] if a[0] == 'exc' else deep_eq(a[1], b[1]))
+            if not (same(steps[2], first) and same(steps[3], first)):
+                rep.violation('C09/history/no-context-evaluation-left-data', 'evaluate() of `$` without data and context gives %r at first, %r (and %r on a fresh engine) after '
+                              'other statements had been evaluated with documents' % (first, steps[2], steps[3]), case)
+        rep.extra['no_context_evaluations'] = nnc
         rep.extra['histories_replayed'] = nh
         rep.sample({'history': [POOL[i] for i in triples[0]], 'orders': len(orders)})
         print('phase G done %.1f' % (time.time() - _t0), file=sys.stderr)
